@@ -316,7 +316,7 @@ PROPS = {
     theorem_files=['Props/C11.lean', 'Bridge/SnapShim.lean'],
     anchors=['agent/shimagent/shimserver.go'],
     n=dict(quick=80, thorough=1500),
-    timeout=dict(quick=900, thorough=3400),
+    timeout=dict(quick=1500, thorough=3400),
     trivial=lambda c: False,
     rule='stress scenarios against one real shim agent behind yubiagent.ServeAgent in a race-detector-instrumented child process: 2..16 goroutines x 20..50 operations each (list, sign with caller-specific data, add / remove of a caller-owned key, add-hardware-certificate valid / expired, expired certificates injected into the underlying agent so that listings purge, raw forward and extension requests with caller-specific payloads; Signers / Extension / some Forward calls made in-process on the shared agent since the wire protocol does not reach them). '
          'Checked: no data race report, every reply carries the caller\'s own payload / verifies over the caller\'s own data, no operation hangs, final underlying identity set equals the sequential effect. Every scenario is non-trivial; distinct = distinct argument fields.'
